@@ -198,3 +198,41 @@ Proof.
   - intros s e. rewrite pileup_dup, range_sum_scale. reflexivity.
   - reflexivity.
 Qed.
+
+(* ---------- C13: the normalised region depths do not depend on the coordinate system ----------
+   [f] moves genome positions (another build: shifted; another strand: mirrored).  The second build has its own region table
+   and neutral region; all that is needed is that a position lies in a region of the first build iff its image lies in the
+   corresponding region of the second. *)
+Definition move (f : Z -> Z) (d : contrib) : contrib := map (fun pc => (f (fst pc), snd pc)) d.
+
+Lemma range_sum_move f d s e s' e' : (forall p, In p (map fst d) -> in_range s' e' (f p) = in_range s e p) ->
+  range_sum (move f d) s' e' = range_sum d s e.
+Proof.
+  induction d as [|[p n] d IH]; intros H; [reflexivity|].
+  assert (IH' : range_sum (move f d) s' e' = range_sum d s e) by (apply IH; intros q Hq; apply H; right; exact Hq).
+  unfold range_sum, move in *. cbn [map filter fst snd].
+  rewrite (H p (or_introl eq_refl)). destruct (in_range s e p); cbn [map snd]; [|exact IH'].
+  unfold zsum in *. cbn [fold_right]. rewrite IH'. reflexivity.
+Qed.
+
+Theorem normalize_moved : forall (f : Z -> Z) nv (regions regions' : list (nregion * Q)) cn cn' dg dn,
+  (forall p, In p (map fst dn) -> in_range (fst cn') (snd cn') (f p) = in_range (fst cn) (snd cn) p) ->
+  Forall2 (fun rp rp' => nr_gene (fst rp') = nr_gene (fst rp) /\ nr_name (fst rp') = nr_name (fst rp) /\ snd rp' = snd rp /\
+                         forall p, In p (map fst dg) ->
+                           in_range (nr_start (fst rp')) (nr_end (fst rp')) (f p) = in_range (nr_start (fst rp)) (nr_end (fst rp)) p)
+          regions regions' ->
+  normalize nv regions' cn' (move f dg) (move f dn) = normalize nv regions cn dg dn.
+Proof.
+  intros f nv regions regions' cn cn' dg dn Hn Hr. unfold normalize.
+  rewrite (range_sum_move f dn _ _ _ _ Hn).
+  destruct (range_sum dn (fst cn) (snd cn) =? 0); [reflexivity|].
+  destruct (Qeqb (nv / inZ (range_sum dn (fst cn) (snd cn))) 0); [reflexivity|]. f_equal.
+  induction Hr as [|rp rp' l l' (H1 & H2 & H3 & H4) _ IH]; [reflexivity|]. cbn [map]. rewrite IH. f_equal.
+  rewrite H1, H2, H3, (range_sum_move f dg _ _ _ _ H4). reflexivity.
+Qed.
+
+(* the two concrete moves: another offset on the same strand; the opposite strand (region [s,e) becomes [top-e+1, top-s+1)) *)
+Lemma in_range_shift off s e p : in_range (s + off) (e + off) (p + off) = in_range s e p.
+Proof. unfold in_range. destruct (Z.leb_spec s p), (Z.ltb_spec p e), (Z.leb_spec (s + off) (p + off)), (Z.ltb_spec (p + off) (e + off)); try reflexivity; lia. Qed.
+Lemma in_range_mirror top s e p : in_range (top - e + 1) (top - s + 1) (top - p) = in_range s e p.
+Proof. unfold in_range. destruct (Z.leb_spec s p), (Z.ltb_spec p e), (Z.leb_spec (top - e + 1) (top - p)), (Z.ltb_spec (top - p) (top - s + 1)); try reflexivity; lia. Qed.
